@@ -41,11 +41,81 @@ def case_strategy(tier):
     return st.lists(op, min_size=1, max_size=40).map(lambda l: {"ops": [list(o) for o in l]})
 
 
+def predict_rebuffered_order(ops):
+    """Handling order the listed finding C19-rebuffer-reorder predicts for a history: messages that cannot be handled
+    are kept first-in first-out, start() and pause(False) put the kept ones back into the agent's (type, arrival) queue
+    with type 19 - even if the computation still cannot handle them - and a message that comes back is kept again, at
+    the end.  (A model of the defect, used only to tell this finding from any other mis-ordering.)"""
+    q, seq = [], [0]
+    state = {"running": False, "paused": False, "started": False}
+    kept, kept_posts, handled = [], [], []
+    counter = 0
+
+    def put(prio, dest, key):
+        seq[0] += 1
+        q.append((20 if prio is None else prio, seq[0], dest, key))
+
+    def reinject():
+        for key in kept:
+            put(19, "c", key)
+        del kept[:]
+
+    def pump(n):
+        for _ in range(n):
+            if not q:
+                return False
+            item = min(q)
+            q.remove(item)
+            if item[2] == "c":
+                (handled if state["running"] and not state["paused"] else kept).append(item[3])
+        return True
+
+    def start():
+        state["started"] = state["running"] = True
+        reinject()
+
+    def resume():
+        state["paused"] = False
+        for target, prio in kept_posts:
+            put(prio, target, None)
+        del kept_posts[:]
+        reinject()
+
+    for kind, arg in ops:
+        if kind == "recv":
+            counter += 1
+            put(None, "c", ["s%d" % arg, counter])
+        elif kind == "post":
+            counter += 1
+            target, prio = POSTS[arg]
+            if state["paused"]:
+                kept_posts.append((target, prio))
+            else:
+                put(prio, target, None)
+        elif kind == "start" and not state["started"]:
+            start()
+        elif kind == "pause":
+            state["paused"] = True
+        elif kind == "resume" and state["paused"]:
+            resume()
+        elif kind == "pump":
+            pump(arg)
+    if not state["started"]:
+        start()
+    if state["paused"]:
+        resume()
+    while pump(500):
+        pass
+    return handled
+
+
 def classify(case, out):
     """Known finding: order is lost only in histories where a re-injected message is buffered a second time
-    (start while paused, or pause/resume while re-injected messages are still queued)."""
+    (start while paused, or pause/resume while re-injected messages are still queued), and then exactly in the way
+    the finding describes (predict_rebuffered_order); any other order is not this finding."""
     if out.info.get("side") == "recv" and out.info.get("rebuffered"):
-        return "C19-rebuffer-reorder"
+        if out.info.get("handled") == predict_rebuffered_order([tuple(o) for o in case["ops"]]):
+            return "C19-rebuffer-reorder"
     return None
 
 
@@ -174,7 +244,7 @@ def run_case(case):
             dup = len(c.handled) != len(set(c.handled))
             return Outcome(False, "handled order %r != reception order %r%s" % (
                 [p for _, p in c.handled], [p for _, p in received], " (duplicates)" if dup else ""),
-                nontrivial, labels, info=dict(info, side="recv"))
+                nontrivial, labels, info=dict(info, side="recv", handled=[[s, p] for s, p in c.handled]))
         if wire != posted:
             return Outcome(False, "messages handed to the agent (target, payload, priority) %r, posting order was %r" % (
                 wire, posted), nontrivial, labels, info=dict(info, side="post"))
